@@ -16,6 +16,18 @@ CLAIMED = {
              "field arithmetic; FFT modelled as exact mirror average.",
         technique="Lean 4 proof (index arithmetic by omega, field_simp) + differential correspondence model↔code",
         design="§3 C06"),
+    "C12": dict(
+        text="Lean 4 theorems over a per-axis index-map model of set_center (whole-pixel path) and of center_image's "
+             "trimming, for every axis length, origin inside the frame and crop mode: the origin lands at size//2; "
+             "maintain_size is a pure translation with zero fill; valid_region is the largest symmetric block of "
+             "original pixels; maintain_data keeps every pixel with minimal symmetric padding; unselected/None axes "
+             "untouched; negative origins wrap; odd_size/square guarantees. Tied to abel/tools/center.py by bit-exact "
+             "correspondence; fractional-origin conservation clauses are measured only.",
+        note="Trusted: Lean kernel + standard axioms; model faithful as far as correspondence explores (shapes 1..8 "
+             "quick / 1..12 thorough, all crops/axes, integer dtype, order=0 rounding); scipy.ndimage.shift (orders "
+             "1-5, fractional origins) is outside the model and only measured (intensity, centroid).",
+        technique="Lean 4 proof (omega over Int/Nat index maps) + differential correspondence model↔code",
+        design="§3 C12"),
 }
 
 NOT_YET = "check not built yet in this session (planned, see DESIGN.md §3); not claimed until its theorems and correspondence run"
